@@ -517,6 +517,8 @@ func (e *Exec) check(c *sym.Term, label string) {
 	switch r {
 	case sym.Unsat:
 		rec.Verdict = "discharged"
+		// a proved assertion is a lemma for the rest of the path
+		e.pc = append(e.pc, c)
 	case sym.Sat:
 		rec.Verdict = "violated"
 		rec.Model = e.modelFrom(m)
